@@ -133,6 +133,25 @@ def run(ctx):
         pushes = [c for c in f.calls if c.name == "push" and "Vec" in c.best]
         ok = bool(nx) and bool(pushes)
         detail = "loop or push not found"
+        if not ok:
+            # the same loop as one expression: `diffs.into_iter().map(|d| …InteractiveDiff::new(d, …)).collect::<Result<Vec<_>>>()?`
+            from ..query import iter_chain, DROPPING_ITER
+            for g_, bi_, si_, st_ in prog.aggregates_of(r"^ast_grep::print::interactive_print::Diffs$"):
+                if g_ is not f:
+                    continue
+                ops_ = dict(zip(st_[2][1]["fields"], st_[2][2]))
+                if "contents" not in ops_ or ops_["contents"][0] == "k":
+                    continue
+                ad, lv = iter_chain(prog, f, ops_["contents"])
+                names = {x[1].name for x in ad}
+                from_param = any(o.kind == "param" and o.ref == 2 and ff is f for ff, o in lv)
+                if "collect" in names and from_param:
+                    drop = sorted(names & DROPPING_ITER)
+                    ok = not drop
+                    detail = ("the payload's contents are collected from the diffs handed in through %s — no element-dropping adaptor" % sorted(names)) if ok else \
+                        "announced edits pass through %s before they become payload entries: some never reach the writer" % drop
+            ctx.ob("R1", "payload completeness in %s" % f.name, ok, detail, where=f.loc())
+            continue
         if ok:
             arms = option_arms(f, nx[0])
             body = loop_of(f, nx[0].bb)
@@ -310,6 +329,7 @@ def r3(ctx):
         f = ctx.anchor("R3", pat)
         if not f:
             continue
+        f = prog.inlined(f)
         sel = [c for c in f.calls if c.name == selector]
         news = [c for c in f.calls if c.best.endswith("CombinedScan::<'r, L>::new")]
         ok = bool(sel) and bool(news)
